@@ -22,7 +22,9 @@ LEVEL_TEXT = ("Generated events tables (1-3 HED-bearing columns incl. curly-brac
               "row permutation must only relabel rows and add one ONSETS_UNORDERED warning.")
 LEVEL_NOTE = "trusted: vlib/gen_tab.py reference assembler; HedString.validate as the string-level side of the " \
              "differential (its own correctness is C01's business)"
-RULE = ("Hypothesis: sidecar (1-3 columns) + table of 2-6 rows with a HED column; cell faults from the C01 mutators; "
+RULE = ("part 'spreadsheets': SpreadsheetInput over TSV text or a generated .xlsx file with 1-3 tag columns (by name or "
+        "number) and an optional prefix column. part 'files': "
+        "Hypothesis: sidecar (1-3 columns) + table of 2-6 rows with a HED column; cell faults from the C01 mutators; "
         "modes: onset/no-onset/degenerate onsets (equal, n/a: totality only)/missing referenced column. Non-trivial = "
         ">=2 rows and (an invalid cell, or a temporal marker, or a reference, or a Duration/Delay group); permutation "
         "clause counted when the permutation is not the identity.")
@@ -330,7 +332,135 @@ def _all_tags(tree):
             yield x
 
 
+# ------------------------------------------------------------------------------------------------------------
+# spreadsheet files (SpreadsheetInput): tag columns given by name or number, optional prefix ('value') column
+@st.composite
+def spreadsheet_case(draw):
+    pl = gen_hed.pool(VERSION)
+    used = set()
+    ncols = draw(st.integers(1, 3))
+    names = ["tags_a", "tags_b", "tags_c"][:ncols]
+    header = list(names)
+    if draw(st.booleans()):
+        header.insert(draw(st.integers(0, len(header))), "notes")
+    prefix = draw(st.booleans())
+    if prefix:
+        header.append("label_col")
+    rows = []
+    for r in range(draw(st.integers(1, 5))):
+        row = []
+        for h in header:
+            if h == "notes":
+                row.append(draw(st.sampled_from(["free text", "n/a", "(not, hed"])))
+            elif h == "label_col":
+                row.append(draw(st.sampled_from(["abc", "x1", "n/a", "a$b"])))
+            else:
+                m = draw(st.integers(0, 6))
+                if m == 0:
+                    row.append("n/a")
+                elif m == 1:
+                    ann = draw(gen_hed.annotation(VERSION, allow_placeholder=False, max_depth=1, with_defs=False,
+                                                  specials=False, used=used, max_children=2))
+                    kinds = [k for k in gen_hed.TREE_MUTATIONS + gen_hed.TEXT_MUTATIONS
+                             if not k.startswith(("def", "taggroup", "toplevel", "onset", "offset", "duration",
+                                                  "unique", "definition", "placeholder"))]
+                    mut = draw(gen_hed.mutated(ann, kinds=kinds, start=draw(st.integers(0, len(kinds) - 1))))
+                    row.append(mut["text"] if mut["text"] is not None else gen_hed.render(mut["tree"]))
+                else:
+                    row.append(gen_hed.render(draw(gen_tab.template(VERSION, used, max_depth=1, max_children=2))))
+        rows.append([c.replace('"', "q").replace("\t", " ") for c in row])
+    return {"header": header, "rows": rows, "tag_columns": names, "prefix": prefix,
+            "by_number": draw(st.booleans()), "xlsx": draw(st.integers(0, 3)) == 0}
+
+
+def oracle_spreadsheet(case):
+    import os
+    import tempfile
+    from hed.models.spreadsheet_input import SpreadsheetInput
+    out = Outcome()
+    header, rows = case["header"], case["rows"]
+    tag_cols = [header.index(n) for n in case["tag_columns"]] if case["by_number"] else list(case["tag_columns"])
+    pre = None
+    if case["prefix"]:
+        key = header.index("label_col") if case["by_number"] else "label_col"
+        pre = {key: "Label/"}
+    ctx = f"header={header} rows={rows} tag_columns={tag_cols} prefix={pre} xlsx={case['xlsx']}"
+    tmp = None
+    try:
+        if case["xlsx"]:
+            import openpyxl
+            tmp = tempfile.mkdtemp(prefix="c07x_", dir=os.environ.get("HOME"))
+            path = os.path.join(tmp, "sheet.xlsx")
+            wb = openpyxl.Workbook()
+            ws = wb.active
+            ws.append(header)
+            for r in rows:
+                ws.append(r)
+            wb.save(path)
+            inp = SpreadsheetInput(path, tag_columns=tag_cols, column_prefix_dictionary=pre, name="sheet")
+        else:
+            inp = SpreadsheetInput(io.StringIO(gen_tab.to_tsv({"header": header, "rows": rows})), file_type=".tsv",
+                                   tag_columns=tag_cols, column_prefix_dictionary=pre, name="sheet")
+        issues = inp.validate(hedenv.schema(VERSION), name="sheet")
+    except Exception as exc:  # noqa
+        from vlib.core import crash_signature
+        sig = crash_signature(exc, "spreadsheet-validate-raises") or f"spreadsheet-validate-raises:{type(exc).__name__}"
+        return out.bad(sig, f"{exc!r}; {ctx}")
+    finally:
+        if tmp:
+            import shutil
+            shutil.rmtree(tmp, ignore_errors=True)
+    by_row = {}
+    for i in issues:
+        if i["severity"] == 1 and i.get("ec_row") is not None:
+            by_row.setdefault(i["ec_row"], []).append(i)
+    any_fault = False
+    for r, row in enumerate(rows):
+        file_row = r + 2
+        got = Counter(i["code"] for i in by_row.get(file_row, []))
+        cells = {}
+        for h, c in zip(header, row):
+            if h in case["tag_columns"] and c not in ("n/a", ""):
+                cells[h] = c
+            elif h == "label_col" and case["prefix"] and c not in ("n/a", ""):
+                cells[h] = "Label/" + c
+        # "every error of every cell": the per-cell (basic) checks; row-level rules are not run on faulty rows
+        errs = {h: Counter({k: v for k, v in string_errors(c).items() if k in CELL_LEVEL_CODES})
+                for h, c in cells.items()}
+        full_errs = {h: string_errors(c) for h, c in cells.items()}
+        if any(errs.values()):
+            any_fault = True
+            for h, e in errs.items():
+                col_got = Counter(i["code"] for i in by_row.get(file_row, []) if i.get("ec_column") == h)
+                for code in e:
+                    if code not in got:
+                        out.bad(f"spreadsheet-cell-error-missing:{code}", f"row {file_row} column {h}: {dict(e)} vs "
+                                                                         f"{dict(got)}; {ctx}")
+                    elif code not in col_got and code in CELL_LEVEL_CODES:
+                        out.bad(f"spreadsheet-cell-error-wrong-column:{code}", f"row {file_row} column {h}: "
+                                f"{[(i['code'], i.get('ec_column')) for i in by_row.get(file_row, [])]}; {ctx}")
+            continue
+        if any(full_errs.values()):
+            # a cell that is only wrong by a row-level rule (e.g. a repeated tag inside the cell): the row verdict
+            # below covers it, since the row is validated as a whole
+            pass
+        joined = ", ".join(cells[h] for h in header if h in cells)
+        exp = string_errors(joined) if joined else Counter()
+        if got != exp:
+            out.bad("spreadsheet-row-verdict-differs:" + "+".join(sorted(set((got - exp) | (exp - got)))),
+                    f"row {file_row}: file {dict(got)} string-level {dict(exp)} for {joined!r}; {ctx}")
+    for i in issues:
+        if i.get("ec_row") is not None and not (2 <= i["ec_row"] <= len(rows) + 1):
+            out.bad("spreadsheet-row-label-out-of-range", f"{i['code']} ec_row={i['ec_row']}; {ctx}")
+    out.nontrivial = len(rows) >= 2 and (any_fault or len(case["tag_columns"]) >= 2)
+    out.classes = tuple(c for c, ok in (("xlsx", case["xlsx"]), ("prefix-column", case["prefix"]),
+                                        ("columns-by-number", case["by_number"]), ("faulty-cell", any_fault)) if ok)
+    return out
+
+
 def describe(case):
+    if "spec" not in case:
+        return case
     return {"sidecar": gen_tab.sidecar_json(case["spec"]), "table": case["table"], "mode": case["mode"],
             "perm": case["perm"], "features": case["features"]}
 
@@ -343,4 +473,6 @@ def warmup(tier):
 
 
 def parts(tier):
-    return [Part("files", oracle, strategy=strategy(), n=600 if tier == "quick" else 24000, describe=describe)]
+    return [Part("files", oracle, strategy=strategy(), n=600 if tier == "quick" else 24000, describe=describe),
+            Part("spreadsheets", oracle_spreadsheet, strategy=spreadsheet_case(), n=300 if tier == "quick" else 12000,
+                 describe=describe)]
